@@ -2,6 +2,7 @@
 model values come only from the solver reply, PDR takes its witness from BMC."""
 from ..tree import *  # noqa
 from ..flow import Index
+from .. import norm
 from .c02 import (BMC, GET_WITNESS, FAIL, is_get_signal_at, range_of, inclusive_upto, is_lit, sys_list, binding_of_pat, mname)
 
 GET_SMT_VALUE = "patronus::mc::utils::get_smt_value"
@@ -41,121 +42,120 @@ def run(ctx):
     ctx.floor("R03.1", "get_signal_at calls in get_witness", len(gsa), 3)
     seen = {"bad": 0, "state": 0, "input": 0}
 
-    def smt_value_of(sym_call):
-        """the local that holds get_smt_value(.., sym_at) for sym_at bound to this get_signal_at call"""
-        d = ix.parent.get(id(sym_call))
-        while d is not None and d.get("k") not in ("let",):
-            d = ix.parent.get(id(d))
-        if d is None:
-            return None
-        b = binding_of_pat(d["pat"])
-        if not b:
-            return None
+    def smt_call_of(sym_call):
+        """the get_smt_value(.., X) call whose X is this get_signal_at call (directly or through a let)"""
         for n in ix.nodes:
-            if n.get("k") == "call" and callee(n) == GET_SMT_VALUE and n["args"] and is_local(n["args"][-1], b[1]):
-                dd = ix.parent.get(id(n))
-                while dd is not None and dd.get("k") != "let":
-                    dd = ix.parent.get(id(dd))
-                if dd is not None and binding_of_pat(dd["pat"]):
-                    return binding_of_pat(dd["pat"])[1], n
+            if n.get("k") == "call" and callee(n) == GET_SMT_VALUE and n["args"]:
+                a = n["args"][-1]
+                if strip_try(a) is sym_call or (peel(a).get("k") == "local" and simple_let_init(defs, peel(a)["id"]) is not None and strip_try(simple_let_init(defs, peel(a)["id"])) is sym_call):
+                    return n
         return None
 
+    def elem_binding(pat):
+        b = pat_bindings(pat)
+        return b[0] if len(b) == 1 else None
+
     for n in gsa:
-        loop = ix.enclosing(n, ("for",))
-        if loop is None or not is_local(n["recv"], P["enc"]):
-            ctx.violation("R03.1", "get_witness:get_signal_at:shape", n["sp"], "UNRECOGNISED: get_signal_at outside a loop or not on `enc`: %s" % show(n))
+        it = norm.iter_context(ix, n)
+        if it is None or it["kind"] not in ("for", "closure") or not is_local(n["recv"], P["enc"]):
+            ctx.violation("R03.1", "get_witness:get_signal_at:shape", n["sp"], "UNRECOGNISED: get_signal_at outside a per-element loop / iterator closure or not on `enc`: %s" % show(n))
             continue
-        base, ms = chain(loop["iter"])
+        base, ms = chain(it["src"])
         names = [m[0] for m in ms]
         e_arg, step = n["args"][1], n["args"][2]
-        pat = loop["pat"]
+        pat = it["pat"]
+        while pat.get("k") in ("pref", "pderef"):
+            pat = pat["pat"]
+        plain_names = [x for x in names if x not in ("copied", "cloned")]
+        skips = any(x.get("k") in ("continue", "break") for x in walk(it["body"]))
         if is_local(base, P["bad_states"]):
             seen["bad"] += 1
-            # pattern (idx, expr) with enumerate
-            ok = names == ["iter", "enumerate"] and pat.get("k") == "ptuple" and len(pat["subs"]) == 2
-            eb = binding_of_pat(pat["subs"][1]) if ok else None
-            ib = binding_of_pat(pat["subs"][0]) if ok else None
+            ok = plain_names == ["iter", "enumerate"] and pat.get("k") == "ptuple" and len(pat["subs"]) == 2
+            eb = elem_binding(pat["subs"][1]) if ok else None
+            ib = elem_binding(pat["subs"][0]) if ok else None
             ok = ok and eb and is_local(e_arg, eb[1]) and is_local(step, P["k_max"])
-            ctx.inst("R03.1", "get_witness:bad-states", ok, n["sp"], "bad states must be evaluated as get_signal_at(bad, k_max) for every element of bad_states (found `%s` in `for %s in %s`)" % (show(n), show_pat(pat), show(loop["iter"])), sample=show(n))
+            ctx.inst("R03.1", "get_witness:bad-states", ok, n["sp"], "bad states must be evaluated as get_signal_at(bad, k_max) for every element of bad_states (found `%s` over `%s`)" % (show(n), show(it["src"])), sample=show(n))
             # R03.2
-            sv = smt_value_of(n)
-            pushes = [x for x in walk(loop["body"]) if mname(x, "push") and field_path(x["recv"]) and field_path(x["recv"])[2] == ["failed_safety"]]
-            ctx.inst("R03.2", "get_witness:failed_safety:count", len(pushes) == 1, loop["sp"], "expected exactly one failed_safety.push in the bad-state loop, found %d" % len(pushes))
+            sv = smt_call_of(n)
+            pushes = [x for x in walk(it["body"]) if mname(x, "push") and field_path(x["recv"]) and field_path(x["recv"])[2] == ["failed_safety"]]
+            ctx.inst("R03.2", "get_witness:failed_safety:count", len(pushes) == 1, it["node"]["sp"], "expected exactly one failed_safety.push in the bad-state loop, found %d" % len(pushes))
             for pu in pushes:
                 a = peel(pu["args"][0])
                 while a.get("k") == "cast":
                     a = peel(a["e"])
                 okp = ib is not None and is_local(a, ib[1])
-                the_if = None
-                for anc in ix.ancestors(pu):
-                    if anc.get("k") == "if" and contains(anc["then"], pu):
-                        the_if = anc
-                        break
+                conds = norm.path_conditions(ix, pu, upto=it["node"])
                 pol = False
-                if the_if is not None and sv is not None:
-                    c = peel(the_if["cond"])
-                    if c.get("k") == "unary" and c["op"] == "!":
-                        c2 = peel(c["e"])
-                        if c2.get("k") == "mcall" and c2["name"] == "is_zero" and value_flows_from(c2["recv"], sv[0], defs):
+                extra = []
+                for c, positive in conds:
+                    if c.get("k") == "mcall" and sv is not None and flows_from_call(c["recv"], sv, defs):
+                        if (c["name"] == "is_zero" and not positive) or (c["name"] in ("is_true", "is_one") and positive):
                             pol = True
-                    if c.get("k") == "mcall" and c["name"] in ("is_true", "is_one") and value_flows_from(c["recv"], sv[0], defs):
-                        pol = True
+                            continue
+                    extra.append("%s%s" % ("" if positive else "!", show(c)))
                 ctx.inst("R03.2", "get_witness:failed_safety:index", okp, pu["sp"], "failed_safety.push(%s) does not push the enumerate index of the bad state being tested" % show(pu["args"][0]))
-                ctx.inst("R03.2", "get_witness:failed_safety:polarity", pol, pu["sp"],
-                         "failed_safety.push is not guarded by `!value.is_zero()` of the model value of this bad state (guard: %s)" % (show(the_if["cond"]) if the_if else "none"),
-                         sample=show(the_if["cond"]) if the_if else None)
-        elif sys_list(loop["iter"] if not ms or names[-1] != "enumerate" else ms[-1][2]["recv"], defs, P["sys"], "states"):
+                ctx.inst("R03.2", "get_witness:failed_safety:polarity", pol and not extra, pu["sp"],
+                         "failed_safety.push must run exactly when the model value of this bad state is non-zero (conditions found: %s)" % ([("" if p_ else "!") + show(c) for c, p_ in conds] or "none"),
+                         sample=[("" if p_ else "!") + show(c) for c, p_ in conds])
+        elif sys_list(it["src"] if not ms or names[-1] != "enumerate" else ms[-1][2]["recv"], defs, P["sys"], "states"):
             seen["state"] += 1
             sb = None
             if pat.get("k") == "ptuple" and len(pat["subs"]) == 2:
-                sb = binding_of_pat(pat["subs"][1])
+                sb = elem_binding(pat["subs"][1])
             else:
-                sb = binding_of_pat(pat)
+                sb = elem_binding(pat)
             fp = field_path(e_arg)
             ok = sb is not None and fp is not None and fp[1] == sb[1] and fp[2] == ["symbol"] and is_lit(step, 0)
             ctx.inst("R03.1", "get_witness:states", ok, n["sp"], "initial state values must be get_signal_at(state.symbol, 0) (found `%s`)" % show(n), sample=show(n))
             # R03.3: unconditional pushes to wit.init and wit.init_names in this loop
             for fld in ("init", "init_names"):
-                pushes = [x for x in walk(loop["body"]) if mname(x, "push") and field_path(x["recv"]) and field_path(x["recv"])[2] == [fld]]
-                okp = len(pushes) == 1 and ix.regions[id(pushes[0])] == ix.regions[id(n)] and len(ix.regions[id(n)]) == len(ix.regions[id(loop)]) + 1
-                ctx.inst("R03.3", "get_witness:%s:push" % fld, okp, loop["sp"], "wit.%s must receive exactly one entry per state, unconditionally (found %d pushes)" % (fld, len(pushes)))
-            no_skip = not any(x.get("k") in ("continue", "break") for x in walk(loop["body"])) and names in (["iter", "enumerate"], ["iter"])
-            ctx.inst("R03.3", "get_witness:states:all", no_skip, loop["sp"], "the state loop skips or filters states: %s" % show(loop["iter"]))
-        elif sys_list(loop["iter"], defs, P["sys"], "inputs"):
+                pushes = [x for x in walk(it["body"]) if mname(x, "push") and field_path(x["recv"]) and field_path(x["recv"])[2] == [fld]]
+                okp = it["kind"] == "for" and len(pushes) == 1 and len(ix.regions[id(pushes[0])]) == len(ix.regions[id(it["node"])]) + 1 and not skips
+                ctx.inst("R03.3", "get_witness:%s:push" % fld, okp, it["node"]["sp"], "wit.%s must receive exactly one entry per state, unconditionally (found %d pushes)" % (fld, len(pushes)))
+            no_skip = not skips and plain_names in (["iter", "enumerate"], ["iter"])
+            ctx.inst("R03.3", "get_witness:states:all", no_skip, it["node"]["sp"], "the state loop skips or filters states: %s" % show(it["src"]))
+        elif sys_list(it["src"], defs, P["sys"], "inputs"):
             seen["input"] += 1
-            ib = binding_of_pat(pat)
-            outer = ix.enclosing(loop, ("for",))
-            kb = binding_of_pat(outer["pat"]) if outer else None
-            ok = ib is not None and is_local(e_arg, ib[1]) and outer is not None and kb and is_local(step, kb[1]) and inclusive_upto(range_of(outer["iter"], defs), P["k_max"])
+            ib = elem_binding(pat)
+            outer = norm.iter_context(ix, it["node"])
+            kb = elem_binding(outer["pat"]) if outer and outer.get("pat") else None
+            ok = ib is not None and is_local(e_arg, ib[1]) and outer is not None and outer["kind"] == "for" and kb and is_local(step, kb[1]) and inclusive_upto(range_of(outer["src"], defs), P["k_max"])
             ctx.inst("R03.1", "get_witness:inputs", ok, n["sp"],
-                     "input values must be get_signal_at(input, k) for every input and every k in 0..=k_max (found `%s` in `for %s in %s`)" % (show(n), show_pat(outer["pat"]) if outer else "?", show(outer["iter"]) if outer else "?"), sample=show(n))
-            # R03.3 pushes
-            sv = smt_value_of(n)
-            inner_push = [x for x in walk(loop["body"]) if mname(x, "push")]
-            okp = len(inner_push) == 1 and ix.regions[id(inner_push[0])] == ix.regions[id(n)]
-            vec_id = local_id(inner_push[0]["recv"]) if inner_push else None
-            if okp:
-                a = peel(inner_push[0]["args"][0])
-                okp = a.get("k") == "ctor" and callee(a).endswith("Option::Some") and sv is not None and is_local(a["args"][0], sv[0])
-            ctx.inst("R03.3", "get_witness:inputs:value-push", okp, loop["sp"], "each input must contribute exactly one Some(model value) per step, unconditionally")
-            if outer is not None:
-                op = [x for x in stmts_nodes(outer["body"]) if mname(x, "push") and field_path(x["recv"]) and field_path(x["recv"])[2] == ["inputs"]]
-                okq = len(op) == 1 and vec_id is not None and is_local(op[0]["args"][0], vec_id) and ix.precedes(loop, op[0])
-                vec_def = defs.get(vec_id)
-                okq = okq and vec_def is not None and vec_def[0] == "let" and contains(outer["body"], vec_def[1])
-                ctx.inst("R03.3", "get_witness:inputs:step-push", okq, outer["sp"], "wit.inputs must receive one fresh vector per step after the input loop")
-            no_skip = [m[0] for m in chain(loop["iter"])[1]] == ["iter"] and not any(x.get("k") in ("continue", "break") for x in walk(loop["body"]))
-            ctx.inst("R03.3", "get_witness:inputs:all", no_skip, loop["sp"], "the input loop skips or filters inputs: %s" % show(loop["iter"]))
+                     "input values must be get_signal_at(input, k) for every input and every k in 0..=k_max (found `%s` inside `%s`)" % (show(n), show(outer["src"]) if outer and outer.get("src") else "?"), sample=show(n))
+            # R03.3: the per-step vector is built element-wise from sys.inputs, each element Some(model value), and pushed once per step
+            sv = smt_call_of(n)
+            okp = okq = False
+            if outer is not None and outer["kind"] == "for":
+                op = [x for x in walk(outer["body"]) if mname(x, "push") and field_path(x["recv"]) and field_path(x["recv"])[2] == ["inputs"]]
+                if len(op) == 1 and len(ix.regions[id(op[0])]) == len(ix.regions[id(outer["node"])]) + 1:
+                    el = norm.elementwise(ix, defs, op[0]["args"][0])
+                    if el is not None and (el["scope"] is it["node"]) and not el.get("pre", ["iter"])[1:] :
+                        okq = ix.precedes(it["node"], op[0]) or contains(op[0], it["node"])
+                        if el["form"] == "loop":
+                            vec = defs.get(local_id(op[0]["args"][0]))
+                            okq = okq and vec is not None and contains(outer["body"], vec[1])      # a fresh vector per step
+                        okp = sv is not None and is_some_of(el["elem"], sv, defs)
+            ctx.inst("R03.3", "get_witness:inputs:value-push", okp, it["node"]["sp"], "each input must contribute exactly one Some(model value) per step, unconditionally")
+            ctx.inst("R03.3", "get_witness:inputs:step-push", okq, (outer or it)["node"]["sp"], "wit.inputs must receive one fresh vector per step, built from all inputs")
+            no_skip = plain_names == ["iter"] and not skips
+            ctx.inst("R03.3", "get_witness:inputs:all", no_skip, it["node"]["sp"], "the input loop skips or filters inputs: %s" % show(it["src"]))
         else:
-            ctx.violation("R03.1", "get_witness:get_signal_at:unknown", n["sp"], "UNRECOGNISED: get_signal_at in a loop over `%s`" % show(loop["iter"]))
+            ctx.violation("R03.1", "get_witness:get_signal_at:unknown", n["sp"], "UNRECOGNISED: get_signal_at iterating over `%s`" % show(it["src"]))
     for kind in seen:
         ctx.inst("R03.1", "get_witness:%s:present" % kind, seen[kind] == 1, f["span"], "expected exactly one get_signal_at site for %s values, found %d" % (kind, seen[kind]))
-    # input names
-    nm = [x for x in ix.nodes if mname(x, "push") and field_path(x["recv"]) and field_path(x["recv"])[2] == ["input_names"]]
+    # input names: one per input, in order: a push in a loop over sys.inputs or extend(sys.inputs.iter().map(..))
+    nm = [x for x in ix.nodes if x.get("k") == "mcall" and x["name"] in ("push", "extend", "insert", "resize", "extend_from_slice") and field_path(x["recv"]) and field_path(x["recv"])[2] == ["input_names"]]
     ok = len(nm) == 1
-    if ok:
-        l = ix.enclosing(nm[0], ("for",))
-        ok = l is not None and sys_list(l["iter"], defs, P["sys"], "inputs") and [m[0] for m in chain(l["iter"])[1]] == ["iter"] and len(ix.regions[id(nm[0])]) == len(ix.regions[id(l)]) + 1
+    if ok and nm[0]["name"] == "push":
+        l = norm.iter_context(ix, nm[0])
+        ok = l is not None and l["kind"] == "for" and sys_list(l["src"], defs, P["sys"], "inputs") and [m[0] for m in chain(l["src"])[1] if m[0] not in ("copied", "cloned")] == ["iter"] \
+            and len(ix.regions[id(nm[0])]) == len(ix.regions[id(l["node"])]) + 1 and not any(x.get("k") in ("continue", "break") for x in walk(l["body"]))
+    elif ok and nm[0]["name"] == "extend":
+        b_, ms_ = chain(nm[0]["args"][0])
+        nms = [m[0] for m in ms_ if m[0] not in ("copied", "cloned")]
+        ok = nms == ["iter", "map"] and sys_list(ms_[0][2]["recv"], defs, P["sys"], "inputs") and len(ix.regions[id(nm[0])]) == 0
+    else:
+        ok = False
     ctx.inst("R03.3", "get_witness:input_names", ok, f["span"], "wit.input_names must receive one name per input of sys.inputs, in order, unconditionally")
     # callers
     c = ctx.facts.lib("patronus")
@@ -185,6 +185,55 @@ def run(ctx):
     ctx.floor("R03.1", "get_witness call sites", ncall, 2)
     r034(ctx)
     r035(ctx)
+
+
+def flows_from_call(n, call, defs, depth=0):
+    """n is the call (through `?`), or a local that only renames / destructures its value (let, let-else, match arms returning their own binding)"""
+    n0 = strip_try(n)
+    if n0 is call:
+        return True
+    if n0.get("k") != "local" or depth > 5:
+        return False
+    d = defs.get(n0["id"])
+    if not d:
+        return False
+    if d[0] == "let" and "init" in d[1]:
+        init = strip_try(d[1]["init"])
+        if init is call or init.get("k") == "local":
+            return flows_from_call(init, call, defs, depth + 1)
+        if init.get("k") == "match":
+            if not flows_from_call(init["scrut"], call, defs, depth + 1):
+                return False
+            for arm in init["arms"]:
+                b = peel(arm["body"])
+                if arm["body"].get("ty") == "!" or b.get("ty") == "!":
+                    continue
+                ids = {i for _, i in pat_bindings(arm["pat"])}
+                if not (b.get("k") == "local" and b["id"] in ids):
+                    return False
+            return True
+    if d[0] in ("arm", "letexpr"):
+        return flows_from_call(d[1]["scrut"] if d[0] == "arm" else d[1]["init"], call, defs, depth + 1)
+    return False
+
+
+def is_some_of(e, call, defs):
+    """e evaluates to Some(value of call): `Some(v)` with v flowing from the call, or `call.map(Some)` (Result<Option<_>>) in a closure tail"""
+    e = norm.tail_value(e)
+    # a closure / block body: look at its tail, resolving the statements' lets through defs
+    while e.get("k") in ("blockexpr", "block"):
+        b = e["b"] if e.get("k") == "blockexpr" else e
+        if "tail" not in b:
+            return False
+        e = norm.tail_value(b["tail"])
+    if e.get("k") == "ctor" and callee(e).endswith("Option::Some") and len(e["args"]) == 1:
+        return flows_from_call(e["args"][0], call, defs)
+    if e.get("k") == "ctor" and callee(e).endswith("Result::Ok") and len(e["args"]) == 1:
+        return is_some_of(e["args"][0], call, defs)
+    if e.get("k") == "mcall" and e["name"] == "map" and len(e["args"]) == 1 and e["recv"] is call or (e.get("k") == "mcall" and e["name"] == "map" and strip_try(e["recv"]) is call):
+        f_ = peel(e["args"][0])
+        return (f_.get("k") == "def" and (f_.get("path") or "").endswith("Option::Some"))
+    return False
 
 
 def stmts_nodes(body):
